@@ -214,7 +214,12 @@ func Data(payload string) []byte {
 	return data(`{"data":[{"header":[{"protocolId":"ee1.0"}]},{"payload":` + payload + `}]}`)
 }
 func Datagram(n int) string {
-	return fmt.Sprintf(`{"datagram":[{"header":[{"msgCounter":%d}]},{"payload":[{"cmd":[]}]}]}`, n)
+	return fmt.Sprintf(`{"datagram":[{"header":[{"msgCounter":%d}]},{"payload":[{"cmd":[{"function":"f"}]}]}]}`, n)
+}
+
+// DatagramPlain is Datagram(n) in plain JSON, as the receiving application must see it.
+func DatagramPlain(n int) string {
+	return fmt.Sprintf(`{"datagram":{"header":{"msgCounter":%d},"payload":{"cmd":{"function":"f"}}}}`, n)
 }
 
 // Describe renders a frame compactly for logs and samples.
